@@ -14,6 +14,8 @@ package harness
 // the reason here (`c20EmptyWhy`, `c20EqualWhy`).
 
 import (
+	chain "github.com/comdex-official/comdex/app"
+
 	"bytes"
 	"encoding/json"
 	"fmt"
@@ -60,10 +62,26 @@ func c20IDValue(v interface{}) (uint64, bool) {
 }
 
 // lists that are empty in every state, with the reason (module.path)
-var c20EmptyWhy = map[string]string{}
+var c20EmptyWhy = map[string]string{
+	"liquidation.lockedVault[].selloff_history": "appended only when a completed first-generation lend auction leaves the borrow above the un-liquidation point and " +
+		"the locked borrow is auctioned again (x/liquidation/keeper/liquidate_borrow.go:471,529,586); not driven",
+	"lend.poolAssetLBMapping[].lend_ids":            "deprecated field: no code appends to it (x/lend/keeper/lend.go:425-439 only removes)",
+	"lend.poolAssetLBMapping[].borrow_ids":          "deprecated field: no code appends to it (x/lend/keeper/lend.go:425-439 only removes)",
+	"lend.userAssetLendBorrowMapping[].borrow_id":   "deprecated field: no code appends to it (x/lend/keeper/lend.go:493-498 only removes, keeper.go:256 clears)",
+	"vault.appExtendedPairVaultMapping[].vault_ids": "deprecated field: read by three queries (x/vault/keeper/query_server.go:220,263,364), never written",
+}
 
 // id pairs that are equal in every record of every state, with the reason (module.path:f|g)
-var c20EqualWhy = map[string]string{}
+var c20EqualWhy = map[string]string{
+	"auction.debtAuction:asset_id|asset_in_id":     "structural: StartDebtAuction stores the collector asset in both fields (x/auction/keeper/debt.go:128-132)",
+	"auction.surplusAuction:asset_id|asset_out_id": "structural: StartSurplusAuction stores the collector asset in both fields (x/auction/keeper/surplus.go:134-137)",
+	"auctionsV2.auction:auction_id|locked_vault_id": "structural: every locked vault starts exactly one auction, the two counters advance in lock step " +
+		"(x/liquidationsV2/keeper/liquidate.go:217-220, x/auctionsV2/keeper/auctions.go:95,135)",
+}
+
+// fields that end in `id` but are type tags, not object ids (1 = surplus, 2 = debt, 3 = dutch; gauge type 1 = liquidity): they take
+// part in no pair
+var c20TagFields = map[string]bool{"auction_mapping_id": true, "dutch_id": true, "surplus_id": true, "debt_id": true, "gauge_type_id": true}
 
 func (p *c20Population) list(module, path string) *c20ListStat {
 	k := module + "." + path
@@ -96,15 +114,7 @@ func (p *c20Population) addState(tr *Trace, module string, raw json.RawMessage) 
 				walk(path+"."+k, y)
 			}
 		case []interface{}:
-			isRec := len(x) == 0
-			for _, el := range x {
-				if _, ok := el.(map[string]interface{}); ok {
-					isRec = true
-				}
-			}
-			if !isRec {
-				return // list of scalars
-			}
+			// (a list of scalars — ids, addresses — is counted like a record list; only records have id pairs)
 			st := p.list(module, path)
 			counts[path] += len(x)
 			for _, el := range x {
@@ -115,7 +125,7 @@ func (p *c20Population) addState(tr *Trace, module string, raw json.RawMessage) 
 				var ids []string
 				vals := map[string]uint64{}
 				for k, y := range rec {
-					if c20IsIDKey(k) {
+					if c20IsIDKey(k) && !c20TagFields[k] {
 						if n, ok := c20IDValue(y); ok {
 							ids = append(ids, k)
 							vals[k] = n
@@ -139,6 +149,17 @@ func (p *c20Population) addState(tr *Trace, module string, raw json.RawMessage) 
 					allDistinct[path] = true
 				}
 				for k, y := range rec {
+					if !strings.Contains(path, ".") {
+						// fields of the records of a top-level list (liquidity keeps its genesis fields one level down, per app)
+						fk := module + "\t" + c20Norm(k)
+						if _, isList := y.([]interface{}); isList {
+							if p.fields[fk] == "" {
+								p.fields[fk] = "list"
+							}
+						} else if p.fields[fk] == "" {
+							p.fields[fk] = "scalar"
+						}
+					}
 					walk(path+"[]."+k, y)
 				}
 			}
@@ -190,8 +211,12 @@ func (p *c20Population) report(tr *Trace) {
 	sort.Strings(fks)
 	topMax := map[string]int{}
 	for _, st := range p.lists {
-		if !strings.Contains(st.path, ".") {
+		if i := strings.Index(st.path, "[]."); !strings.Contains(st.path, ".") {
 			topMax[st.module+"\t"+c20Norm(st.path)] = st.max
+		} else if i > 0 && !strings.Contains(st.path[:i], ".") && !strings.Contains(st.path[i+3:], ".") {
+			if k := st.module + "\t" + c20Norm(st.path[i+3:]); topMax[k] < st.max {
+				topMax[k] = st.max
+			}
 		}
 	}
 	for _, fk := range fks {
@@ -244,4 +269,40 @@ func (p *c20Population) report(tr *Trace) {
 		tr.Line("gen.coverage", s[0])
 	}
 	tr.Set("population", summary)
+}
+
+// message types of the DeFi modules the continuation workload never delivers successfully, with the reason
+var c20MsgWhy = map[string]string{
+	"/comdex.collector.v1beta1.MsgDeposit": "one-off main-net refund: succeeds only once and pays hard-coded comdex1… recipients that do not decode under the test " +
+		"bech32 prefix (x/collector/keeper/refund.go:132-170; suspected gap S01); delivered on both chains, refused alike",
+	"/comdex.locker.v1beta1.MsgAddWhiteListedAssetRequest": "registered message type without a Msg service method (x/locker/keeper/msg_server.go has no handler): the router " +
+		"refuses it on both chains",
+	"/comdex.bandoracle.v1beta1.MsgFetchPriceData": "needs an open IBC channel to the oracle chain",
+}
+
+// c20MsgReport prints the per-message-type distribution of the continuation workload (original chain) and reports every
+// registered comdex message type that no continuation operation delivered successfully against the re-imported positions.
+func c20MsgReport(tr *Trace) {
+	enc := chain.MakeEncodingConfig()
+	var all []string
+	for _, u := range enc.InterfaceRegistry.ListImplementations("cosmos.base.v1beta1.Msg") {
+		if strings.HasPrefix(u, "/comdex.") {
+			all = append(all, u)
+		}
+	}
+	sort.Strings(all)
+	dist := map[string]string{}
+	for _, u := range all {
+		st := c20ContMsgs[u]
+		if st == nil {
+			st = &[2]int{}
+		}
+		dist[u] = fmt.Sprintf("accepted %d, refused %d", st[0], st[1])
+		why := "-"
+		if w, ok := c20MsgWhy[u]; ok {
+			why = w
+		}
+		tr.Line("gen.msgtype", u, strconv.Itoa(st[0]), strconv.Itoa(st[1]), why)
+	}
+	tr.Set("continuation_message_types", dist)
 }
